@@ -40,6 +40,7 @@ def oracle(case) -> list:
     st, g, comps = ssref.describe(seq, pairs)
     text = ssref.bpseq_text(seq, pairs)
     b = BpSeq.from_string(text)
+    _decoys = [BpSeq.from_string(t) for t in ssref.decoy_texts(len(seq))]  # other objects alive while this one is asked
     out = []
     alls = b.all_dot_brackets
     if not isinstance(alls, list):
